@@ -60,4 +60,12 @@ CHECKS = {
             "assumptions": SEQ_ASSUME + ["'relations reject it' is read generously: the state, or one it transitively Requires, is in the Remove relation of any candidate state", "a veto by AnyEnter, by an exiting state or by a state that is not a called Auto state cancels the transition (general rule)", "health mutations: no demand either way"],
         },
     },
+    "C14": {
+        "pkg": "harness/c14",
+        "budget_s": {"quick": 150, "thorough": 1500},
+        "meta": {
+            "rule": "explicit-state BFS over ordered active lists; each case is a whole history (BFS path + one mutation of add/remove/set/canadd/canremove over all non-empty subsets or AddErr) executed on a fresh real machine observed from the start by two recording tracers (Opts.Tracers and TracerBind) under handler configs {none, logging handlers, nested mutation from a final / negotiation handler, vetoing handler}; non-trivial = history with a canceled and an auto transition or with more transitions than mutations",
+            "assumptions": SEQ_ASSUME + ["single caller goroutine (the multi-goroutine 'never interleaved' clause is covered by C04's transition-nesting oracle under all schedules)", "handler faults are out of scope (C08)"],
+        },
+    },
 }
